@@ -86,6 +86,7 @@ static bool decode_all(const std::string& s, U32& out)
 	}
 	return true;
 }
+static bool wellformed(const char* p, int n) { U32 t; return decode_all(std::string(p, n), t); }
 static bool is_scalar(uint32_t c) { return c >= 1 && c <= 0x10FFFF && !(c >= 0xD800 && c <= 0xDFFF); }
 
 // ------------------------------------------------------------------ helpers
@@ -265,12 +266,15 @@ static void check_valid(vf::Ctx& c, const U32& cps)
 			if (up.length() > s.length() || lo.length() > s.length())
 				FAILF("valid.case.longer-than-input", "input %d bytes, upper %d, lower %d", s.length(), up.length(), lo.length());
 			if (!lenok(up) || !lenok(lo)) FAILF("valid.case.length-vs-strlen", "upper length()=%d strlen=%d, lower length()=%d strlen=%d", up.length(), (int)strlen(*up), lo.length(), (int)strlen(*lo));
+			// the images themselves are only operands of a judged comparison when they are well-formed text
+			const bool upwf = wellformed(*up, up.length()), lowf = wellformed(*lo, lo.length());
+			if (!upwf || !lowf) c.count("wellformed_text_with_illformed_case_image(recorded)");
 			bool e;
 			if (!nocase_agrees(s, s, e) || !e) FAILF("valid.nocase.self", "equalsNocase(s,s)=%d", (int)e);
-			if (!nocase_agrees(s, up, e)) FAILF("valid.nocase.vs-lower", "equalsNocase(s, s.toUpperCase())=%d but the lower-cased forms compare %s", (int)e, e ? "different" : "equal");
-			if (!nocase_agrees(s, lo, e)) FAILF("valid.nocase.vs-lower", "equalsNocase(s, s.toLowerCase())=%d but the lower-cased forms compare %s", (int)e, e ? "different" : "equal");
-			if (!nocase_agrees(up, lo, e)) FAILF("valid.nocase.vs-lower", "equalsNocase(upper, lower)=%d but the lower-cased forms compare %s", (int)e, e ? "different" : "equal");
-			if (!same(up, s) || !same(lo, s)) c.count("valid_strings_changed_by_case_map");
+			if (upwf && !nocase_agrees(s, up, e)) FAILF("valid.nocase.vs-lower", "equalsNocase(s, s.toUpperCase())=%d but the lower-cased forms compare %s", (int)e, e ? "different" : "equal");
+			if (lowf && !nocase_agrees(s, lo, e)) FAILF("valid.nocase.vs-lower", "equalsNocase(s, s.toLowerCase())=%d but the lower-cased forms compare %s", (int)e, e ? "different" : "equal");
+			if (upwf && lowf && !nocase_agrees(up, lo, e)) FAILF("valid.nocase.vs-lower", "equalsNocase(upper, lower)=%d but the lower-cased forms compare %s", (int)e, e ? "different" : "equal");
+			if (up.length() != s.length() || lo.length() != s.length() || memcmp(*up + 19, *s + 19, nb) || memcmp(*lo + 19, *s + 19, nb)) c.count("valid_texts_changed_by_a_case_map");
 		}
 	}
 }
@@ -281,7 +285,7 @@ static void mode_scalars(vf::Ctx& c)
 	long blk = c.opt->param("blk", 256), step = c.opt->param("step", 1), dump = c.opt->param("dump", 0);
 	uint32_t first = (uint32_t)(c.idx * blk);
 	U32 one(1);
-	uint64_t n = 0;
+	uint64_t n = 0, skipped = 0, n8[4] = {0, 0, 0, 0};
 	for (uint32_t cp = first; cp < first + blk; cp++) {
 		if (!is_scalar(cp)) continue;
 		if (dump && recf && (cp % dump == 0 || near_boundary(cp))) {
@@ -294,18 +298,18 @@ static void mode_scalars(vf::Ctx& c)
 			for (int i = 0; i < n16; i++) h16 += vf::fmt("%04x", w[i]);
 			fprintf(recf, "E %u %s %s %d %u %d %u .\n", cp, vf::hex(b, n8).c_str(), h16.c_str(), m8, d8, m16, d16);
 		}
-		if (step > 1 && (cp % step) != (uint32_t)(c.idx % step) && !near_boundary(cp)) continue;
+		if (step > 1 && (cp % step) != (uint32_t)(c.idx % step) && !near_boundary(cp)) { skipped++; continue; }
 		one[0] = cp;
 		check_valid(c, one);
 		n++;
+		n8[cp < 0x80 ? 0 : cp < 0x800 ? 1 : cp < 0x10000 ? 2 : 3]++;
 		if (cp >= 0x80) c.distinct(cp);
 	}
 	if (n) c.evals(n - 1);
 	c.count("scalars_checked", n);
-	if (first < 0x80) c.count("scalars_1byte", n);
-	else if (first < 0x800) c.count("scalars_2byte", n);
-	else if (first < 0x10000) c.count("scalars_3byte", n);
-	else c.count("scalars_4byte", n);
+	c.count("scalars_skipped_by_step", skipped);
+	static const char* N8[4] = {"scalars_1byte", "scalars_2byte", "scalars_3byte", "scalars_4byte"};
+	for (int i = 0; i < 4; i++) if (n8[i]) c.count(N8[i], n8[i]);
 	if (c.want_sample() && n) c.sample(vf::fmt("all %llu scalar values of U+%04X..U+%04X%s: utf32toUtf8, utf8toUtf32, utf8toUtf16, utf16toUtf8, String(wchar_t*), fromCode(s), chars, count, range-for, foreach, dataw, SafeString, case maps, equalsNocase",
 	                                           (unsigned long long)n, first, (unsigned)(first + blk - 1), step > 1 ? " selected by step" : ""));
 }
@@ -417,9 +421,19 @@ static void mode_casemap(vf::Ctx& c)
 	if ((long)cp >= lim) return;
 	String a = exact(PAD + enc8s(U32(1, cp)));
 	String up = a.toUpperCase(), lo = a.toLowerCase();
+	if (memcmp(*up, "PAD-PREFIX_19BYTES:", 19) || memcmp(*lo, "pad-prefix_19bytes:", 19)) FAILF("ascii.pad", "case map of the ASCII pad is wrong: %s / %s", hx(up).c_str(), hx(lo).c_str());
+	a = exact(std::string("pad-prefix_19bytes:") + enc8s(U32(1, cp)));  // lower-case pad, so that only the code point under test can change
+	up = exact(std::string("pad-prefix_19bytes:") + std::string(*up + 19));
 	std::vector<String> others;
-	others.push_back(a); others.push_back(up); others.push_back(lo); others.push_back(up.toLowerCase()); others.push_back(lo.toUpperCase());
-	static const int D[] = {-1, 1, -32, 32, -0x20 ^ 0, 0x30, -0x30, 0x50, -0x50, 1415, 1416};
+	others.push_back(a);
+	{
+		String cand[4] = {up, lo, up.toLowerCase(), lo.toUpperCase()};
+		for (int i = 0; i < 4; i++) {
+			if (wellformed(*cand[i], cand[i].length())) others.push_back(cand[i]);
+			else c.count("wellformed_text_with_illformed_case_image(recorded)");
+		}
+	}
+	static const int D[] = {-1, 1, -32, 32, 48, -48, 80, -80, 1, 1414, 1415, 1416};
 	for (size_t i = 0; i < sizeof(D) / sizeof(D[0]); i++) {
 		long o = (long)cp + D[i];
 		if (i >= 9) o = D[i];
@@ -439,14 +453,14 @@ static void mode_casemap(vf::Ctx& c)
 	c.evals(others.size() - 1);
 	c.count("nocase_pairs_judged", others.size());
 	c.count("nocase_pairs_equal", neq);
-	if (!same(up, a)) c.count("codepoints_with_upper_image");
-	if (!same(lo, a)) c.count("codepoints_with_lower_image");
+	if (!same(up, a)) c.count("codepoints_changed_by_toUpperCase");
+	if (!same(lo, a)) c.count("codepoints_changed_by_toLowerCase");
 	c.distinct(cp);
 	if (c.want_sample() && cp > 0xC0) c.sample(vf::fmt("U+%04X vs itself, its upper/lower images %s/%s, neighbours%s: equalsNocase <=> equal toLowerCase", cp, hx(up).substr(38).c_str(), hx(lo).substr(38).c_str(), allpairs ? " and every code point below the limit" : ""));
 }
 
 // ------------------------------------------------------------------ arbitrary bytes
-struct BytesTally { uint64_t n, wf, count_ne_chars, iter_ne_chars, nocase_ne_lower, embedded_nul, count_skipped; };
+struct BytesTally { uint64_t n, wf, count_ne_chars, iter_ne_chars, nocase_ne_lower, embedded_nul, count_skipped, illformed_image; };
 
 static void check_bytes(vf::Ctx& c, const std::string& t, const std::string& partner_t, BytesTally& T)
 {
@@ -525,12 +539,14 @@ static void check_bytes(vf::Ctx& c, const std::string& t, const std::string& par
 	U32 pref;
 	const bool pwf = decode_all(partner_t, pref);
 	const String* others[4] = {&s, &up, &lo, &p};
+	const bool owf[4] = {wf, wf && wellformed(*up, up.length()), wf && wellformed(*lo, lo.length()), pwf};
+	if (wf && (!owf[1] || !owf[2])) T.illformed_image++;
 	for (int i = 0; i < 4; i++) {
 		bool e;
 		bool agree = nocase_agrees(s, *others[i], e);
 		if (i == 0 && !e) FAILF(wf ? "valid.nocase.self" : "bytes.nocase.self", "equalsNocase(s, s) is false");
 		if (agree) continue;
-		if (wf && (i < 3 || pwf)) FAILF("valid.nocase.vs-lower", "well-formed input, partner %d (0=self 1=upper 2=lower 3=%s): equalsNocase=%d but the lower-cased forms compare %s", i, vf::hex(partner_t).c_str(), (int)e, e ? "different" : "equal");
+		if (wf && owf[i]) FAILF("valid.nocase.vs-lower", "well-formed input, partner %d (0=self 1=upper 2=lower 3=%s): equalsNocase=%d but the lower-cased forms compare %s", i, vf::hex(partner_t).c_str(), (int)e, e ? "different" : "equal");
 		T.nocase_ne_lower++;
 	}
 }
@@ -540,11 +556,12 @@ static void tally(vf::Ctx& c, const BytesTally& T)
 	c.count("byte_strings", T.n);
 	c.count("byte_strings_wellformed", T.wf);
 	c.count("byte_strings_illformed", T.n - T.wf);
-	c.count("illformed_count_ne_chars_length(recorded)", T.count_ne_chars);
-	c.count("illformed_iteration_ne_chars_length(recorded)", T.iter_ne_chars);
-	c.count("illformed_equalsNocase_ne_lower_equality(recorded)", T.nocase_ne_lower);
+	c.count("illformed_count_ne_chars(recorded)", T.count_ne_chars);
+	c.count("illformed_iteration_ne_chars(recorded)", T.iter_ne_chars);
+	c.count("illformed_nocase_ne_lower_equality(recorded)", T.nocase_ne_lower);
 	c.count("case_map_output_with_embedded_NUL", T.embedded_nul);
-	if (T.count_skipped) c.count("count()_skipped_on_trailing_2byte_lead(avoid)", T.count_skipped);
+	if (T.illformed_image) c.count("wellformed_text_with_illformed_case_image(recorded)", T.illformed_image);
+	if (T.count_skipped) c.count("count()_skipped_trailing_2byte_lead(avoid)", T.count_skipped);
 	if (T.n) c.evals(T.n - 1);
 }
 
@@ -563,7 +580,7 @@ static void dump_decode(const std::string& t)
 static void mode_bytes(vf::Ctx& c)
 {
 	long dump = c.opt->param("dump", 0);
-	BytesTally T = {0, 0, 0, 0, 0, 0, 0};
+	BytesTally T = {0, 0, 0, 0, 0, 0, 0, 0};
 	std::string prefix, partner = "\xC3\xA9";
 	std::vector<std::string> items;
 	if (c.idx == 0) items.push_back("");
@@ -596,7 +613,7 @@ static void mode_alpha(vf::Ctx& c)
 	long dump = c.opt->param("dump", 0);
 	uint64_t total = 0, p = 1;
 	for (int l = 0; l <= maxlen; l++) { total += p; p *= NALPHA; }
-	BytesTally T = {0, 0, 0, 0, 0, 0, 0};
+	BytesTally T = {0, 0, 0, 0, 0, 0, 0, 0};
 	std::string partner = "A\xC2";
 	for (uint64_t g = c.idx * 256; g < c.idx * 256 + 256 && g < total; g++) {
 		uint64_t r = g, q = 1;
@@ -649,11 +666,12 @@ static std::string random_bytes(vf::Rng& r, int maxlen)
 static void mode_rand(vf::Ctx& c)
 {
 	int maxlen = (int)c.opt->param("maxlen", 300), per = (int)c.opt->param("per", 8);
-	BytesTally T = {0, 0, 0, 0, 0, 0, 0};
+	long dump = c.opt->param("dump", 0);
+	BytesTally T = {0, 0, 0, 0, 0, 0, 0, 0};
 	std::string partner = random_bytes(c.rng, 12);
 	for (int i = 0; i < per; i++) {
 		std::string t = random_bytes(c.rng, c.rng.chance(0.5) ? 24 : maxlen);
-		if (c.opt->param("dump", 0) && i == 0) dump_decode(t);
+		if (dump && i == 0 && c.idx % dump == 0) dump_decode(t);
 		check_bytes(c, t, partner, T);
 		c.distinct(vf::fnv(t));
 		partner = t;
@@ -703,7 +721,7 @@ static void mode_units(vf::Ctx& c)
 		String s(native);
 		unsigned char b[4];
 		int n = enc8(0x1F600, b);
-		if (!(s.length() == n && memcmp(*s, b, n) == 0)) c.count("native_32bit_wchar_above_FFFF_not_converted_as_UTF32(recorded)");
+		if (!(s.length() == n && memcmp(*s, b, n) == 0)) c.count("native_UTF32_wchar_above_FFFF_misconverted(recorded)");
 	}
 	c.count("unit_sequences_wellformed", nwf);
 	c.count("unit_sequences_illformed", nill);
